@@ -173,42 +173,175 @@ theorem setDepotBase_err (g : Graph) (nm : String) (hd : g.indexOf? nm = none) :
     setDepotBase g nm = (g, .error .value) := by
   unfold setDepotBase; simp [hd]
 
+/-! ## the strict re-check of `set_depot` (`recheckArcs`) -/
+
+theorem okTiming_congr_nodes {g g' : Graph} (h : g.nodes = g'.nodes) (rule : Bool) (i j : ℕ) (t : ℚ) :
+    okTiming g rule i j t = okTiming g' rule i j t := by
+  unfold okTiming
+  rw [Graph.hi_congr_nodes h i, Graph.hi_congr_nodes h j, Graph.lo_congr_nodes h i]
+
+/-- `add_arc` never touches the nodes, the capacity, the initial load -/
+theorem addArcWith_fields (g : Graph) (o d : String) (t c : ℚ) (rule : ℕ → Bool) :
+    (addArcWith g o d t c rule).1.nodes = g.nodes ∧ (addArcWith g o d t c rule).1.cap = g.cap ∧
+      (addArcWith g o d t c rule).1.init = g.init := by
+  cases hi : g.indexOf? o with
+  | none => rw [addArcWith_err _ _ _ _ _ _ (Or.inl hi)]; exact ⟨rfl, rfl, rfl⟩
+  | some i =>
+    cases hj : g.indexOf? d with
+    | none => rw [addArcWith_err _ _ _ _ _ _ (Or.inr hj)]; exact ⟨rfl, rfl, rfl⟩
+    | some j =>
+      rw [addArcWith_eq g o d t c rule i j hi hj]
+      split_ifs <;> exact ⟨rfl, rfl, rfl⟩
+
+/-- the step function of the re-check loop -/
+def recheckStep (rule : ℕ → Bool) (acc : Graph) (e : Key × Arc) : Graph :=
+  (addArcWith acc e.2.orig e.2.dest e.2.time e.2.cost rule).1
+
+theorem recheckArcs_def (g : Graph) (rule : ℕ → Bool) :
+    recheckArcs g rule = g.arcs.foldl (recheckStep rule) { g with arcs := [] } := rfl
+
+theorem recheckFold_fields (rule : ℕ → Bool) (l : List (Key × Arc)) (acc : Graph) :
+    (l.foldl (recheckStep rule) acc).nodes = acc.nodes ∧ (l.foldl (recheckStep rule) acc).cap = acc.cap ∧
+      (l.foldl (recheckStep rule) acc).init = acc.init := by
+  induction l generalizing acc with
+  | nil => exact ⟨rfl, rfl, rfl⟩
+  | cons e rest ih =>
+    rw [List.foldl_cons]
+    obtain ⟨h1, h2, h3⟩ := ih (recheckStep rule acc e)
+    obtain ⟨k1, k2, k3⟩ := addArcWith_fields acc e.2.orig e.2.dest e.2.time e.2.cost rule
+    exact ⟨h1.trans k1, h2.trans k2, h3.trans k3⟩
+
+theorem recheckFold_inv (rule : ℕ → Bool) (l : List (Key × Arc)) (acc : Graph) (h : Inv acc) :
+    Inv (l.foldl (recheckStep rule) acc) := by
+  induction l generalizing acc with
+  | nil => exact h
+  | cons e rest ih => exact ih _ (addArcWith_inv acc _ _ _ _ rule h)
+
+/-- the re-check keeps the node list (no invariant needed) -/
+theorem recheckArcs_nodes (g : Graph) (rule : ℕ → Bool) : (recheckArcs g rule).nodes = g.nodes :=
+  (recheckFold_fields rule g.arcs { g with arcs := [] }).1
+
+theorem recheckArcs_cap (g : Graph) (rule : ℕ → Bool) : (recheckArcs g rule).cap = g.cap :=
+  (recheckFold_fields rule g.arcs { g with arcs := [] }).2.1
+
+theorem recheckArcs_init (g : Graph) (rule : ℕ → Bool) : (recheckArcs g rule).init = g.init :=
+  (recheckFold_fields rule g.arcs { g with arcs := [] }).2.2
+
+/-- the re-check preserves the invariant -/
+theorem recheckArcs_inv (g : Graph) (rule : ℕ → Bool) (h : Inv g) : Inv (recheckArcs g rule) :=
+  recheckFold_inv rule g.arcs { g with arcs := [] } ⟨h.nodup, h.nodesOk, by simp, by simp⟩
+
+/-- the test a stored arc `e` of `g` has to pass in the re-check: the timing test of `add_arc` at the
+    key the arc is filed under -/
+def recheckPass (g : Graph) (rule : ℕ → Bool) (e : Key × Arc) : Bool :=
+  okTiming g (rule e.1.1) e.1.1 e.1.2 e.2.time
+
+/-- re-adding an arc that is correctly filed in `g` to a graph with the same nodes: it is filed under
+    its old key with its old value, or dropped -/
+theorem recheckStep_eq (g : Graph) (hinv : Inv g) (rule : ℕ → Bool) (acc : Graph) (hn : acc.nodes = g.nodes)
+    (e : Key × Arc) (he : e ∈ g.arcs) :
+    recheckStep rule acc e =
+      if recheckPass g rule e then { acc with arcs := dictSet acc.arcs e.1 e.2 } else acc := by
+  obtain ⟨ni, nj, h1, h2, h3, h4, _⟩ := hinv.filed e he
+  have hi : acc.indexOf? e.2.orig = some e.1.1 := by
+    rw [Graph.indexOf?_congr_nodes hn, ← h3]; exact Graph.indexOf?_of_getElem? hinv.nodup h1
+  have hj : acc.indexOf? e.2.dest = some e.1.2 := by
+    rw [Graph.indexOf?_congr_nodes hn, ← h4]; exact Graph.indexOf?_of_getElem? hinv.nodup h2
+  unfold recheckStep recheckPass
+  rw [addArcWith_eq acc _ _ _ _ rule _ _ hi hj, okTiming_congr_nodes hn]
+  split_ifs <;> rfl
+
+theorem recheckFold_eq (g : Graph) (hinv : Inv g) (rule : ℕ → Bool) (l : List (Key × Arc)) (acc : Graph)
+    (hn : acc.nodes = g.nodes) (hl : ∀ e ∈ l, e ∈ g.arcs) (hnd : ((acc.arcs ++ l).map (·.1)).Nodup) :
+    l.foldl (recheckStep rule) acc = { acc with arcs := acc.arcs ++ l.filter (recheckPass g rule) } := by
+  induction l generalizing acc with
+  | nil => simp
+  | cons e rest ih =>
+    rw [List.foldl_cons, recheckStep_eq g hinv rule acc hn e (hl e List.mem_cons_self)]
+    have hl' : ∀ e' ∈ rest, e' ∈ g.arcs := fun e' h' => hl e' (List.mem_cons_of_mem _ h')
+    by_cases hp : recheckPass g rule e = true
+    · have hnew : e.1 ∉ acc.arcs.map (·.1) := by
+        intro hmem
+        rw [List.map_append, List.map_cons] at hnd
+        exact (List.disjoint_of_nodup_append hnd) hmem List.mem_cons_self
+      rw [if_pos hp, dictSet_of_not_mem_keys _ _ _ hnew]
+      have hnd' : (((acc.arcs ++ [(e.1, e.2)]) ++ rest).map (·.1)).Nodup := by
+        simpa using hnd
+      rw [ih { acc with arcs := acc.arcs ++ [(e.1, e.2)] } hn hl' hnd', List.filter_cons_of_pos hp]
+      simp
+    · rw [if_neg hp]
+      have hnd' : ((acc.arcs ++ rest).map (·.1)).Nodup :=
+        List.Nodup.sublist
+          ((List.Sublist.append_left (List.sublist_cons_self e rest) acc.arcs).map _) hnd
+      rw [ih acc hn hl' hnd', List.filter_cons_of_neg hp]
+
+/-- **the re-check is a filter**: on a self-consistent graph the re-check keeps the keys, the values and the
+    order of the stored arcs and drops exactly the arcs that fail `add_arc`'s timing test at their key -/
+theorem recheckArcs_eq_filter (g : Graph) (hinv : Inv g) (rule : ℕ → Bool) :
+    recheckArcs g rule = { g with arcs := g.arcs.filter (recheckPass g rule) } := by
+  rw [recheckArcs_def, recheckFold_eq g hinv rule g.arcs { g with arcs := [] } rfl (fun _ h => h)
+    (by simpa using hinv.keysNodup)]
+  simp
+
+/-- every arc that survives the re-check was stored before under the same key and passes the test -/
+theorem recheckArcs_mem (g : Graph) (hinv : Inv g) (rule : ℕ → Bool) (e : Key × Arc)
+    (he : e ∈ (recheckArcs g rule).arcs) : e ∈ g.arcs ∧ recheckPass g rule e = true := by
+  rw [recheckArcs_eq_filter g hinv rule] at he
+  simpa using he
+
+/-- the arcs handed to the `(0,0)` assignment of the sequence-based `set_depot` -/
+def seqRecheck (strict : Bool) (g : Graph) : Graph :=
+  if strict then recheckArcs g (fun i => strict && i != 0) else g
+
+theorem seqRecheck_nodes (s : Bool) (g : Graph) : (seqRecheck s g).nodes = g.nodes := by
+  unfold seqRecheck; split_ifs
+  · exact recheckArcs_nodes g _
+  · rfl
+
+theorem seqRecheck_inv (s : Bool) (g : Graph) (h : Inv g) : Inv (seqRecheck s g) := by
+  unfold seqRecheck; split_ifs
+  · exact recheckArcs_inv g _ h
+  · exact h
+
 /-- the sequence-based `set_depot`, unfolded -/
-def setDepotSeq (g : Graph) (nm : String) : Graph × GOut :=
+def setDepotSeq (strict : Bool) (g : Graph) (nm : String) : Graph × GOut :=
   let r := setDepotBase g nm
   match r.2 with
   | .error e => (g, .error e)
   | .ok _ =>
-    match r.1.nodes.head? with
+    match (seqRecheck strict r.1).nodes.head? with
     | none => (g, .error .index)
-    | some n0 => ({ r.1 with arcs := dictSet r.1.arcs (0, 0) ⟨n0.name, n0.name, 0, 0⟩ }, .ok none)
+    | some n0 =>
+      ({ seqRecheck strict r.1 with
+          arcs := dictSet (seqRecheck strict r.1).arcs (0, 0) ⟨n0.name, n0.name, 0, 0⟩ }, .ok none)
 
 theorem gstep_setDepot_seq (s : Bool) (g : Graph) (nm : String) :
-    gstep (.seq s) g (.setDepot nm) = setDepotSeq g nm := rfl
+    gstep (.seq s) g (.setDepot nm) = setDepotSeq s g nm := rfl
 
-theorem setDepotSeq_err (g : Graph) (nm : String) (hd : g.indexOf? nm = none) :
-    setDepotSeq g nm = (g, .error .value) := by
+theorem setDepotSeq_err (s : Bool) (g : Graph) (nm : String) (hd : g.indexOf? nm = none) :
+    setDepotSeq s g nm = (g, .error .value) := by
   unfold setDepotSeq; simp [setDepotBase_err g nm hd]
 
-theorem setDepotSeq_ok (g : Graph) (nm : String) (d : ℕ) (hd : g.indexOf? nm = some d) :
+theorem setDepotSeq_ok (s : Bool) (g : Graph) (nm : String) (d : ℕ) (hd : g.indexOf? nm = some d) :
     ∃ n0, (setDepotBase g nm).1.nodes.head? = some n0 ∧ n0.name = nm ∧
-      setDepotSeq g nm =
-        ({ (setDepotBase g nm).1 with
-            arcs := dictSet (setDepotBase g nm).1.arcs (0, 0) ⟨n0.name, n0.name, 0, 0⟩ }, .ok none) := by
+      setDepotSeq s g nm =
+        ({ seqRecheck s (setDepotBase g nm).1 with
+            arcs := dictSet (seqRecheck s (setDepotBase g nm).1).arcs (0, 0) ⟨n0.name, n0.name, 0, 0⟩ },
+          .ok none) := by
   obtain ⟨hok, n0, hn0, hnm⟩ := setDepotBase_ok g nm d hd
   refine ⟨n0, hn0, hnm, ?_⟩
   unfold setDepotSeq
-  simp [hok, hn0]
+  simp [hok, seqRecheck_nodes, hn0]
 
-theorem setDepotSeq_inv (g : Graph) (nm : String) (h : Inv g) : Inv (setDepotSeq g nm).1 := by
+theorem setDepotSeq_inv (s : Bool) (g : Graph) (nm : String) (h : Inv g) : Inv (setDepotSeq s g nm).1 := by
   cases hd : g.indexOf? nm with
-  | none => rw [setDepotSeq_err g nm hd]; exact h
+  | none => rw [setDepotSeq_err s g nm hd]; exact h
   | some d =>
-    obtain ⟨n0, hn0, _, heq⟩ := setDepotSeq_ok g nm d hd
+    obtain ⟨n0, hn0, _, heq⟩ := setDepotSeq_ok s g nm d hd
     rw [heq]
-    have hb := setDepotBase_inv g nm h
-    have hn0' : (setDepotBase g nm).1.nodes[0]? = some n0 := by
-      rw [← List.head?_eq_getElem?]; exact hn0
+    have hb := seqRecheck_inv s _ (setDepotBase_inv g nm h)
+    have hn0' : (seqRecheck s (setDepotBase g nm).1).nodes[0]? = some n0 := by
+      rw [seqRecheck_nodes, ← List.head?_eq_getElem?]; exact hn0
     refine ⟨hb.nodup, hb.nodesOk, dictSet_keys_nodup _ _ _ hb.keysNodup, ?_⟩
     intro e he
     rcases mem_dictSet he with rfl | he
@@ -226,10 +359,11 @@ theorem gstep_addArc (fl : Flavor) (g : Graph) (o d : String) (t c : ℚ) :
   | seq s => exact ⟨_, rfl⟩
 
 theorem gstep_setDepot (fl : Flavor) (g : Graph) (nm : String) :
-    gstep fl g (.setDepot nm) = setDepotBase g nm ∨ gstep fl g (.setDepot nm) = setDepotSeq g nm := by
+    gstep fl g (.setDepot nm) = setDepotBase g nm ∨
+      ∃ s, gstep fl g (.setDepot nm) = setDepotSeq s g nm := by
   cases fl with
   | base => exact Or.inl rfl
-  | seq s => exact Or.inr rfl
+  | seq s => exact Or.inr ⟨s, rfl⟩
 
 /-- a call that raises leaves the graph unchanged -/
 theorem error_leaves_state (fl : Flavor) (g : Graph) (op : GOp) (e : Err)
@@ -241,14 +375,14 @@ theorem error_leaves_state (fl : Flavor) (g : Graph) (op : GOp) (e : Err)
   | setDepot nm =>
     cases hd : g.indexOf? nm with
     | none =>
-      rcases gstep_setDepot fl g nm with h' | h'
+      rcases gstep_setDepot fl g nm with h' | ⟨s, h'⟩
       · rw [h', setDepotBase_err g nm hd]
-      · rw [h', setDepotSeq_err g nm hd]
+      · rw [h', setDepotSeq_err s g nm hd]
     | some d =>
       exfalso
-      rcases gstep_setDepot fl g nm with h' | h'
+      rcases gstep_setDepot fl g nm with h' | ⟨s, h'⟩
       · rw [h', (setDepotBase_ok g nm d hd).1] at h; simp at h
-      · obtain ⟨n0, _, _, heq⟩ := setDepotSeq_ok g nm d hd
+      · obtain ⟨n0, _, _, heq⟩ := setDepotSeq_ok s g nm d hd
         rw [h', heq] at h; simp at h
   | addArc o d t c =>
     obtain ⟨rule, hr⟩ := gstep_addArc fl g o d t c
@@ -279,13 +413,13 @@ theorem setDepot_raises_iff (fl : Flavor) (g : Graph) (hinv : Inv g) (nm : Strin
   rw [← Graph.indexOf?_eq_none_iff]
   cases hd : g.indexOf? nm with
   | none =>
-    rcases gstep_setDepot fl g nm with h' | h'
+    rcases gstep_setDepot fl g nm with h' | ⟨s, h'⟩
     · rw [h', setDepotBase_err g nm hd]; simp
-    · rw [h', setDepotSeq_err g nm hd]; simp
+    · rw [h', setDepotSeq_err s g nm hd]; simp
   | some d =>
-    rcases gstep_setDepot fl g nm with h' | h'
+    rcases gstep_setDepot fl g nm with h' | ⟨s, h'⟩
     · rw [h', (setDepotBase_ok g nm d hd).1]; simp
-    · obtain ⟨n0, _, _, heq⟩ := setDepotSeq_ok g nm d hd
+    · obtain ⟨n0, _, _, heq⟩ := setDepotSeq_ok s g nm d hd
       rw [h', heq]; simp
 
 /-- `add_arc` raises exactly when one of the names is unknown -/
@@ -310,17 +444,17 @@ theorem setDepot_first (fl : Flavor) (g : Graph) (nm : String) (hinv : Inv g)
   cases hd : g.indexOf? nm with
   | none =>
     exfalso
-    rcases gstep_setDepot fl g nm with h' | h'
+    rcases gstep_setDepot fl g nm with h' | ⟨s, h'⟩
     · rw [h', setDepotBase_err g nm hd] at h; simp at h
-    · rw [h', setDepotSeq_err g nm hd] at h; simp at h
+    · rw [h', setDepotSeq_err s g nm hd] at h; simp at h
   | some d =>
-    rcases gstep_setDepot fl g nm with h' | h'
+    rcases gstep_setDepot fl g nm with h' | ⟨s, h'⟩
     · obtain ⟨_, n0, hn0, hnm⟩ := setDepotBase_ok g nm d hd
       rw [h', hn0]; simp [hnm]
-    · obtain ⟨n0, hn0, hnm, heq⟩ := setDepotSeq_ok g nm d hd
+    · obtain ⟨n0, hn0, hnm, heq⟩ := setDepotSeq_ok s g nm d hd
       rw [h', heq]
-      show ((setDepotBase g nm).1.nodes.head?).map (·.name) = some nm
-      rw [hn0]; simp [hnm]
+      show ((seqRecheck s (setDepotBase g nm).1).nodes.head?).map (·.name) = some nm
+      rw [seqRecheck_nodes, hn0]; simp [hnm]
 
 /-- base class: `add_arc` reports success iff the timing filter holds iff the arc was stored;
     on `False` the graph is unchanged -/
@@ -341,14 +475,47 @@ theorem addArc_result_base (g : Graph) (o d : String) (t c : ℚ) (i j : ℕ)
   | true => simp [dictGet_dictSet_self]
   | false => simp
 
+/-- the timing test of the strict `add_arc` for origin position `i`, destination position `j`: the depot
+    (position 0) is exempt from the strict rule and is tested with its window START; every other origin is
+    tested with its window END (`∞ + t ≤ hi(j)` holds only for `hi(j) = ∞`) -/
+def strictTiming (g : Graph) (i j : ℕ) (t : ℚ) : Bool :=
+  if i = 0 then leE (g.lo i + t) (g.hi j)
+  else
+    (match g.hi i with
+     | none => (g.hi j).isNone
+     | some b => leE (b + t) (g.hi j))
+
+/-- strict sequence-based class: `add_arc` reports success iff the strict timing test holds iff the arc was
+    stored (under the current positions); on `False` the graph is unchanged -/
+theorem addArc_result_strict (g : Graph) (o d : String) (t c : ℚ) (i j : ℕ)
+    (hi : g.indexOf? o = some i) (hj : g.indexOf? d = some j) :
+    let r := gstep (.seq true) g (.addArc o d t c)
+    (r.2 = .ok (some true) ↔ strictTiming g i j t = true) ∧
+    (r.2 = .ok (some false) ↔ strictTiming g i j t = false) ∧
+    (r.2 = .ok (some true) → dictGet r.1.arcs (i, j) = some ⟨o, d, t, c⟩ ∧ r.1.nodes = g.nodes) ∧
+    (r.2 = .ok (some false) → r.1 = g) := by
+  intro r
+  have hr : r = addArcWith g o d t c (fun i => true && i != 0) := rfl
+  rw [addArcWith_eq g o d t c _ i j hi hj] at hr
+  have hk : okTiming g (true && i != 0) i j t = strictTiming g i j t := by
+    unfold okTiming strictTiming
+    by_cases h0 : i = 0
+    · simp [h0]
+    · simp [h0]
+  rw [hk] at hr
+  rw [hr]
+  cases hle : strictTiming g i j t with
+  | true => simp [dictGet_dictSet_self]
+  | false => simp
+
 /-- every call of every flavour preserves the invariant -/
 theorem gstep_inv (fl : Flavor) (g : Graph) (op : GOp) (h : Inv g) : Inv (gstep fl g op).1 := by
   cases op with
   | addNode nm d lo hi => exact addNodeStep_inv g nm d lo hi h
   | setDepot nm =>
-    rcases gstep_setDepot fl g nm with h' | h'
+    rcases gstep_setDepot fl g nm with h' | ⟨s, h'⟩
     · rw [h']; exact setDepotBase_inv g nm h
-    · rw [h']; exact setDepotSeq_inv g nm h
+    · rw [h']; exact setDepotSeq_inv s g nm h
   | addArc o d t c =>
     obtain ⟨rule, hr⟩ := gstep_addArc fl g o d t c
     rw [hr]; exact addArcWith_inv g o d t c rule h
